@@ -1,0 +1,18 @@
+//go:build verif
+
+package analysis
+
+import "go/types"
+
+// VerifTrace, when set, is called at the linearization points of handleType
+// (verification hook H1, only compiled with the build tag 'verif'):
+//   - "hit"    : the type is already registered, [node] is the registered node
+//   - "enter"  : the type is not registered yet and is about to be resolved
+//   - "return" : the type has been resolved (and registered) as [node]
+var VerifTrace func(ev string, typ types.Type, node Type)
+
+func verifTrace(ev string, typ types.Type, node Type) {
+	if VerifTrace != nil {
+		VerifTrace(ev, typ, node)
+	}
+}
